@@ -602,3 +602,12 @@ Proof.
   pose proof (process_blocks_leaves _ _ _ _ _ _ _ _ R) as L. destruct (handle_confirmed (c_bridge c) conf) as [f err]. cbn [fst w_pending]. exact L.
 Qed.
 
+(* while events are pending the height poller is not gated off: every tick of _fetchHeight whose request succeeds is a
+   height tick of the event loop *)
+Theorem fetch_height_ticks_while_pending : forall c s height now mc hd,
+  poller_inv s -> w_pending s <> [] ->
+  fetch_height_tick c s (Some height) now mc hd = step c s (OTick height now mc hd).
+Proof.
+  intros c s height now mc hd I P. unfold fetch_height_tick. destruct (w_dead s) eqn:D; [rewrite step_dead by exact D; reflexivity|].
+  rewrite (I P). reflexivity.
+Qed.
